@@ -177,7 +177,7 @@ PROPS = {
     "C14": {
         "id": "C14",
         "title": "Analytic-signal and frequency-translation tools follow their definitions",
-        "rules": ["N1", "V1"],
+        "rules": ["N1", "N3", "V1"],
         "clause": "the tuner's admissible-frequency test (and every other division of the anchored files) is carried out in real "
                   "arithmetic: every f with |f| <= fs/2 is accepted, also for odd sample rates",
         "not_decided": "hilbert/HilbertFilter numerics and the phase accumulator arithmetic",
@@ -197,9 +197,10 @@ PROPS = {
     "C20": {
         "id": "C20",
         "title": "Dynamics processors never amplify, follow their static curves, and settle",
-        "rules": ["N1", "L2"],
+        "rules": ["N1", "L2", "H1"],
         "clause": "the static gain computers and their range checks contain no integer-truncated division (slope 1/ratio is real); "
-                  "the AGC's max_gain clamp lies on every path between a gain update and its use",
+                  "the AGC's max_gain clamp lies on every path between a gain update and its use; the smoothing state of "
+                  "compressor, limiter and noise gate is carried into the output and no data-dependent shortcut bypasses its update",
         "not_decided": "gain range [0,1], monotone smoothing, settling, the numerical shape of the knee",
         "explanation": "N1 enumerates every '/' expression of compressor.h, limiter.h, noise-gate.h, agc.cpp/.h and ma-filter.h with "
                        "operand types.",
